@@ -14,6 +14,7 @@ fn strategy() -> BoxedStrategy<FaultCase> {
         4 => any::<u16>().prop_map(Mutation::FlipBit),
         3 => (any::<u16>(), prop_oneof![Just(0u8), Just(0xff), Just(0x80), any::<u8>()]).prop_map(|(p, v)| Mutation::SetByte(p, v)),
         3 => (any::<u16>(), 0u8..5).prop_map(|(p, k)| Mutation::HugeLength(p, k)),
+        2 => (any::<u8>(), any::<u16>()).prop_map(|(k, n)| Mutation::WrongShape(k, n)),
     ];
     let fault = (0u8..24, prop_oneof![2 => Just(Target::Event), 4 => any::<u16>().prop_map(Target::Response), 1 => any::<u16>().prop_map(Target::Stray)], mutation).prop_map(|(at, target, mutation)| Fault { at, target, mutation });
     let cfg = GenCfg { abortable: false, task_aborts: false, mixed: 0, max_acts: 24, scale: false, ..GenCfg::standard() };
